@@ -269,23 +269,65 @@ fn closest_iter() -> SimResult {
     let timeout = Duration::from_secs(10);
     let known: Vec<PeerId> = (0..1 + choose(5)).map(|_| g.peers[choose(g.peers.len())]).collect();
     let mut it = kv::Closest::new(g.target, known.clone(), parallelism, num_results, timeout);
+    // every peer the iterator has learned of (the keys of its closest_peers map)
     let mut learned: BTreeSet<PeerId> = known.iter().copied().collect();
     let mut in_flight: Vec<(PeerId, Duration)> = vec![];
     let mut contacted: BTreeSet<PeerId> = BTreeSet::new();
     let mut succeeded: BTreeSet<PeerId> = BTreeSet::new();
     let mut resolved: BTreeSet<PeerId> = BTreeSet::new();
-    let mut late: Vec<PeerId> = vec![];
-    let bound = num_results.max(parallelism);
+    // peers whose request timed out and whose answer is still to come
+    let mut late_ready: Vec<PeerId> = vec![];
+    // reference of the documented stall rule: `parallelism` consecutive answers without progress stall the
+    // iterator, which raises the allowed parallelism to max(num_results, parallelism) until progress is made again
+    let mut no_progress = 0usize;
+    let mut stalled = false;
+    let mut late_delivered = 0u32;
     let budget = 40 * g.peers.len() + 200;
     let mut finished = false;
+    let dist_sorted = |set: &BTreeSet<PeerId>| {
+        let mut v: Vec<PeerId> = set.iter().copied().collect();
+        v.sort_by(|a, b| kv::closer(g.target, *a, *b));
+        v
+    };
+    // mirrors ClosestPeersIter::on_success' notion of progress; returns the new learned set
+    let mut deliver_success = |it: &mut kv::Closest, p: PeerId, learned: &mut BTreeSet<PeerId>, succeeded: &mut BTreeSet<PeerId>, no_progress: &mut usize, stalled: &mut bool| {
+        let closer: Vec<PeerId> = g.closer[&p].clone();
+        let before = dist_sorted(learned);
+        let cur_range = before.get(num_results - 1).or(before.last()).copied();
+        let mut progress = before.len() < num_results;
+        if it.on_success(&p, closer.clone()) {
+            succeeded.insert(p);
+            for c in closer {
+                if learned.insert(c) {
+                    if let Some(r) = cur_range {
+                        if kv::closer(g.target, c, r) == std::cmp::Ordering::Less {
+                            progress = true;
+                        }
+                    }
+                }
+            }
+            if *stalled {
+                if progress {
+                    *stalled = false;
+                    *no_progress = 0;
+                }
+            } else {
+                *no_progress = if progress { 0 } else { *no_progress + 1 };
+                if *no_progress >= parallelism {
+                    *stalled = true;
+                }
+            }
+        }
+    };
     for _ in 0..budget {
         let now = web_time::Instant::now();
+        // requests older than the peer timeout no longer count (the iterator calls them unresponsive)
+        let live_before = in_flight.iter().filter(|(_, since)| elapsed() < *since + timeout).count();
         let st = it.next(now);
-        trace!("next -> {:?}; in flight {}, iterator waits for {}", match &st { kv::IterState::Waiting(Some(p)) => format!("contact p{:?} ({:?})", g.peers.iter().position(|x| x == p), g.behave.get(p)), o => format!("{o:?}") }, in_flight.len(), it.num_waiting());
+        trace!("next -> {:?}; live {live_before}, iterator waits for {}, stalled {stalled}", match &st { kv::IterState::Waiting(Some(p)) => format!("contact p{:?} ({:?})", g.peers.iter().position(|x| x == p), g.behave.get(p)), o => format!("{o:?}") }, it.num_waiting());
         match st {
             kv::IterState::Finished => {
                 finished = true;
-                // requests whose timeout has passed count as resolved (the iterator marked them unresponsive in next())
                 for (p, since) in &in_flight {
                     if elapsed() >= *since + timeout {
                         resolved.insert(*p);
@@ -296,6 +338,8 @@ fn closest_iter() -> SimResult {
             kv::IterState::Waiting(Some(p)) => {
                 ensure!(contacted.insert(p), "C39/peer-contacted-twice", "the iterator asked to contact the same peer twice");
                 ensure!(learned.contains(&p), "C39/unknown-peer-contacted", "the iterator wants to contact a peer it never learned of");
+                let cap = if stalled { num_results.max(parallelism) } else { parallelism };
+                ensure!(live_before < cap, "C39/too-many-in-flight", "a new request was started with {live_before} requests already in flight; parallelism {parallelism}, num_results {num_results}, stalled (by the reference rule): {stalled}");
                 in_flight.push((p, elapsed()));
             }
             kv::IterState::Waiting(None) | kv::IterState::WaitingAtCapacity => {
@@ -303,20 +347,22 @@ fn closest_iter() -> SimResult {
                 in_flight.retain(|(p, since)| {
                     if elapsed() >= *since + timeout {
                         resolved.insert(*p);
+                        if g.behave[p] == Behave::Late {
+                            late_ready.push(*p);
+                        }
                         false
                     } else {
                         true
                     }
                 });
+                // an answer that arrives after its request timed out, while the lookup is still running
+                if !late_ready.is_empty() && (in_flight.is_empty() || choose(3) == 0) {
+                    let p = late_ready.remove(choose(late_ready.len()));
+                    late_delivered += 1;
+                    deliver_success(&mut it, p, &mut learned, &mut succeeded, &mut no_progress, &mut stalled);
+                    continue;
+                }
                 if in_flight.is_empty() {
-                    if let Some(p) = late.pop() {
-                        // a late success after the timeout
-                        if it.on_success(&p, g.closer[&p].clone()) {
-                            succeeded.insert(p);
-                            learned.extend(g.closer[&p].iter().copied());
-                        }
-                        continue;
-                    }
                     advance(timeout);
                     continue;
                 }
@@ -326,10 +372,7 @@ fn closest_iter() -> SimResult {
                     Behave::Answer => {
                         in_flight.remove(k);
                         resolved.insert(p);
-                        if it.on_success(&p, g.closer[&p].clone()) {
-                            succeeded.insert(p);
-                            learned.extend(g.closer[&p].iter().copied().filter(|x| *x != g.target));
-                        }
+                        deliver_success(&mut it, p, &mut learned, &mut succeeded, &mut no_progress, &mut stalled);
                     }
                     Behave::Fail => {
                         in_flight.remove(k);
@@ -337,17 +380,14 @@ fn closest_iter() -> SimResult {
                         it.on_failure(&p);
                     }
                     Behave::Silent | Behave::Late => {
-                        // nothing arrives; let time pass (possibly all the way to the timeout)
-                        if g.behave[&p] == Behave::Late && !late.contains(&p) {
-                            late.push(p);
-                        }
+                        // nothing arrives yet; let time pass (possibly all the way to the timeout)
                         advance([Duration::from_secs(1), Duration::from_secs(4), timeout][choose(3)]);
                     }
                 }
             }
         }
-        let live = in_flight.iter().filter(|(_, since)| elapsed() < *since + timeout).count();
-        ensure!(live <= bound && it.num_waiting() <= bound, "C39/too-many-in-flight", "{live} requests in flight (the iterator counts {}); parallelism {parallelism}, num_results {num_results}", it.num_waiting());
+        let bound = num_results.max(parallelism);
+        ensure!(it.num_waiting() <= bound, "C39/too-many-in-flight", "the iterator waits for {} requests; parallelism {parallelism}, num_results {num_results}", it.num_waiting());
     }
     ensure!(finished, "C39/no-termination", "the closest-peers iterator did not finish within {budget} steps although every request was answered, failed or timed out ({} peers)", g.peers.len());
     let result = it.into_result();
@@ -375,6 +415,9 @@ fn closest_iter() -> SimResult {
     }
     if result.len() >= 2 && contacted.len() > result.len() {
         mark_nontrivial();
+    }
+    if late_delivered > 0 {
+        probe("late-answer-during-lookup");
     }
     note_val("cfg", (parallelism + 8 * num_results) as u64);
     note_val("n", (g.peers.len() / 4) as u64);
